@@ -204,12 +204,6 @@ pub fn parse(data: &[u8]) -> Result<Parsed, String> {
     Ok(Parsed { header, hash, block, hi_block, data: data.to_vec(), layout })
 }
 
-fn basename(name: &[u8]) -> &[u8] {
-    match name.iter().rposition(|&b| b == b'\\' || b == b'/') {
-        Some(p) => &name[p + 1..],
-        None => name,
-    }
-}
 
 fn inflate(method: u8, payload: &[u8], expect: usize) -> Result<Vec<u8>, String> {
     let mut out = Vec::with_capacity(expect);
